@@ -218,7 +218,10 @@ func newSessionJ(w *vt.Writer, proto string, dom uint32, seq0 uint32, dist map[u
 	return &session{w: w, p: p, ep: ep, dist: dist, json: jsonMode}
 }
 
-func (s *session) send(d setDesc) {
+func (s *session) send(d setDesc) { s.sendPre(d, nil) }
+
+// sendPre sends a set described by d; pre, when given, is the (already built, possibly already offered) set object.
+func (s *session) sendPre(d setDesc, pre entities.Set) {
 	s.evals++
 	h := fnv.New64a()
 	fmt.Fprint(h, d.stype, d.hdrID, len(d.recs))
@@ -235,7 +238,9 @@ func (s *session) send(d setDesc) {
 				ev["detail"] = fmt.Sprint(r)
 			}
 		}()
-		set = d.build()
+		if set = pre; set == nil {
+			set = d.build()
+		}
 		t0 := time.Now().Unix()
 		n, err := s.ep.SendSet(set)
 		t1 := time.Now().Unix()
@@ -543,7 +548,14 @@ func main() {
 			case 2:
 				seq0 = 1<<31 - uint32(r.Intn(100))
 			}
-			s := newSession(w, proto, r.Uint32(), seq0, dist)
+			dom := r.Uint32()
+			switch i % 5 {
+			case 3:
+				dom = 0 // a legal observation domain
+			case 4:
+				dom = ^uint32(0)
+			}
+			s := newSession(w, proto, dom, seq0, dist)
 			ies := []*entities.InfoElement{u8, str}
 			ies2 := []*entities.InfoElement{ip4, u8}
 			s.send(tmplSet(256, ies))
@@ -615,6 +627,26 @@ func main() {
 					d := setDesc{stype: "data", hdrID: 257, recs: []rec{{tid: 257, ies: addr, vals: v}}}
 					if r.Intn(2) == 0 {
 						d.recs = append([]rec{{tid: 257, ies: addr, vals: randVals(r, addr, 20)}}, d.recs...)
+					}
+					if k <= 2 && r.Intn(2) == 0 {
+						// refused, corrected in place through the element's setter, the SAME set offered again:
+						// what is transmitted then is the corrected value
+						set := d.build()
+						s.sendPre(d, set)
+						last := set.GetRecords()[len(d.recs)-1].GetOrderedElementList()
+						good := d
+						good.recs = append([]rec{}, d.recs...)
+						gv := append([][]int{}, v...)
+						if k == 0 {
+							gv[0] = []int{10, 1, 2, 3}
+							last[0].SetIPAddressValue(net.IP{10, 1, 2, 3})
+						} else {
+							gv[2] = []int{2, 4, 6, 8, 10, 12}
+							last[2].SetMacAddressValue(net.HardwareAddr{2, 4, 6, 8, 10, 12})
+						}
+						good.recs[len(good.recs)-1] = rec{tid: 257, ies: addr, vals: gv}
+						s.sendPre(good, set)
+						continue
 					}
 					s.send(d)
 				case x == 6: // a template that does not fit
